@@ -200,6 +200,7 @@ func main() {
 	coqOut := flag.String("coq", "", "Coq output")
 	jsonOut := flag.String("json", "", "JSON output")
 	name := flag.String("name", "access_table", "name of the Coq definition")
+	flag.StringVar(&instrDir, "instr", "", "also write instrumented copies of the scanned sources (and overlay.json) here")
 	flag.Parse()
 	targets := flag.Args()
 
@@ -404,6 +405,7 @@ func main() {
 		return out[i].Site < out[j].Site
 	})
 	writeCoq(*coqOut, *name, out)
+	writeInstrumented(infos)
 	sort.Strings(lost)
 	js, _ := json.MarshalIndent(map[string]interface{}{"rows": out, "coverage_lost": lost, "captured_locals": capturedLocals(),
 		"example": exampleStats}, "", " ")
@@ -459,8 +461,9 @@ func indexTypes(pi *pkgInfo) {
 
 type walker struct {
 	fc      *funcCtx
-	silent  bool // fixpoint pre-passes over loop bodies record nothing
-	dropAll bool // control flow not understood: no lock is certainly held any more
+	silent  bool      // fixpoint pre-passes over loop bodies record nothing
+	dropAll bool      // control flow not understood: no lock is certainly held any more
+	anchor  token.Pos // start of the innermost statement that sits in a statement list (instrumenter)
 }
 
 func (w *walker) pos(p token.Pos) string {
@@ -481,9 +484,12 @@ func (w *walker) eff(held lockset) lockset {
 
 // block walks statements in order and returns the lock set after the last one
 func (w *walker) block(list []ast.Stmt, held lockset) lockset {
+	saved := w.anchor
 	for _, s := range list {
+		w.anchor = s.Pos()
 		held = w.stmt(s, held)
 	}
+	w.anchor = saved
 	return held
 }
 
@@ -536,6 +542,7 @@ func (w *walker) stmt(s ast.Stmt, held lockset) lockset {
 	case *ast.ExprStmt:
 		if call, ok := st.X.(*ast.CallExpr); ok {
 			if name, op := w.lockCall(call); op != "" {
+				w.instrLock(st, call, name, op)
 				held = held.copy()
 				switch op {
 				case "Lock":
@@ -601,11 +608,13 @@ func (w *walker) stmt(s ast.Stmt, held lockset) lockset {
 		w.expr(st.Value, held, "read")
 		return held
 	case *ast.GoStmt:
+		w.instrFork(st)
 		w.call(st.Call, held, true)
 		w.fc.seenGo = true
 		return held
 	case *ast.DeferStmt:
-		if _, op := w.lockCall(st.Call); op == "Unlock" || op == "RUnlock" {
+		if name, op := w.lockCall(st.Call); op == "Unlock" || op == "RUnlock" {
+			w.instrDeferUnlock(st, name, op)
 			return held // stays held to the end of the function
 		}
 		if _, op := w.lockCall(st.Call); op != "" {
@@ -1078,6 +1087,7 @@ func (w *walker) record(p token.Pos, name, mode string, held lockset, e ast.Expr
 	if w.fc.isCtor && !w.fc.isLit && !w.fc.seenGo && e != nil && w.baseIsFreshLocal(e) && mode != "atomic" {
 		kind = "init"
 	}
+	w.instrAccess(name, mode, e)
 	rows = append(rows, &row{Site: w.pos(p), Fn: w.fc.name, Field: name, Kind: kind, local: w.eff(held).copy(), ctx: w.fc})
 }
 
